@@ -658,7 +658,11 @@ def check_cond_batch(ctx, corr, units, tag):
                 v['known_id'] = KNOWN_SHIFT
                 corr.count('known:' + KNOWN_SHIFT)
             else:
+                v['unshrunk'] = src
                 v['input'] = shrink_unit(ctx, d, lines)
+                open(os.path.join(d, 'shr.c'), 'w').write(v['input'])
+                v['got'], _ = run_pp([ctx.cc, '-E', 'shr.c'], d)
+                v['expected'], _ = run_pp(['gcc', '-E', '-P', 'shr.c'], d)
             corr.violations.append(v)
         elif spec.startswith('err:') and gcc_c == 'err' and impl.startswith('ok:'):
             corr.violations.append({'what': 'ill-formed conditional nest accepted', 'input': src, 'expected': spec, 'got': impl})
@@ -1063,7 +1067,8 @@ class Graph:
         if rng.random() < 0.35:
             pre = [Ln('#define Q 2', 'define Q n 2 s') if rng.random() < 0.5 else Ln('#undef P', 'undef P 0'), tmk()]
             if rng.random() < 0.5:
-                pre.append(self.inc_line(rng.choice(['q', 'a']), rng.choice(names)))
+                hn = rng.choice(names)
+                pre.append(self.inc_line('a' if hn in self.next_names else rng.choice(['q', 'a']), hn))
             where = rng.choice(['pre.h', dirs[0] + '/pre_d.h'])
             self.files[where] = pre
             spelled = where if where == 'pre.h' or rng.random() < 0.5 or dirs[0] not in idirs + after else 'pre_d.h'
@@ -1155,9 +1160,11 @@ def include_cases(ctx, corr, n):
         if not g.gcc_ok:
             corr.count('gcc-skipped:pragma-once-two-spellings')
         elif gcc_c.startswith('ok:') and impl != gcc_c:
+            small, a2, b2 = shrink_graph(ctx, g, d)
             corr.violations.append({'what': 'chibicc -E includes different text than gcc -E -P with the same options '
                                             '(search order / re-inclusion shortcut / command-line macro)',
-                                    'input': shrink_graph(ctx, g, d), 'args': args, 'expected': gcc_c, 'got': impl, 'stderr': ierr[-300:]})
+                                    'input': small, 'args': args, 'expected': b2 or gcc_c, 'got': a2 or impl, 'stderr': ierr[-300:],
+                                    'unshrunk': {'files': g.dump(), 'expected': gcc_c, 'got': impl}})
         elif gcc_c == 'err' and impl.startswith('ok:'):
             corr.count('gcc-rejects-chibicc-accepts')          # e.g. a header not found by gcc but found relative to the working directory
         if len(corr.samples) < 5 and impl.count(',') > 4 and gcc_c == impl:
@@ -1179,7 +1186,7 @@ def shrink_graph(ctx, g, d):
             open(os.path.join(d, p), 'w').write('\n'.join(ls) + '\n')
     write()
     if not differ():
-        return g.dump()
+        return g.dump(), None, None
     for p in sorted(files, key=lambda x: -len(files[x])):
         i = 0
         while i < len(files[p]):
@@ -1191,7 +1198,9 @@ def shrink_graph(ctx, g, d):
             files[p] = keep
             i += 1
     write()
-    return {p: '\n'.join(ls) + '\n' for p, ls in files.items()}
+    a, _ = run_pp(['bin/chibicc', '-E'] + args + ['m.c'], d)
+    b, _ = run_pp(['gcc', '-E', '-P', '-nostdinc', '-isystem', 'bin/include'] + args + ['m.c'], d)
+    return {p: '\n'.join(ls) + '\n' for p, ls in files.items()}, a, b
 
 
 def fixed_include_cases(ctx, corr):
